@@ -84,8 +84,13 @@ def oracle(case):
             channels.add(channel)
             encs.add(codec)
             kw = dict(mnemonic_case=mc)
-            if channel in ("stringio", "string"):
-                arg = io.StringIO(text) if channel == "stringio" else text
+            if channel in ("stringio", "string", "stringio-written"):
+                if channel == "stringio-written":
+                    # a StringIO the caller has just filled with write(): its position is at the end
+                    arg = io.StringIO()
+                    arg.write(text)
+                else:
+                    arg = io.StringIO(text) if channel == "stringio" else text
                 las = attempt(lasio.read, arg, **kw)
             else:
                 path = os.path.join(tmp, "f%d.las" % vi)
@@ -98,6 +103,8 @@ def oracle(case):
                     las = attempt(lasio.read, pathlib.Path(path), **kw)
                 else:  # open text file object
                     fobj = open(path, "r", encoding=info["enc"])  # the caller decodes: BOM handled by utf-8-sig
+                    if channel == "fileobj-peeked":
+                        fobj.readline()  # the caller has looked at the first line: the file is not at position 0
                     try:
                         las = attempt(lasio.read, fobj, mnemonic_case=mc)
                     finally:
@@ -164,7 +171,7 @@ def file_cases(draw):
                     ln["text"] = "no" + exotic + "te " + ln["text"]
     variants = []
     for _ in range(draw(st.integers(2, 5))):
-        ch = draw(st.sampled_from(["path", "Path", "fileobj", "stringio", "string"]))
+        ch = draw(st.sampled_from(["path", "Path", "fileobj", "stringio", "string", "stringio-written", "fileobj-peeked"]))
         variants.append([draw(st.sampled_from(codecs)), draw(st.sampled_from(["LF", "CRLF", "CR"])), ch])
     return {"spec": spec, "variants": variants, "mnemonic_case": draw(st.sampled_from(["upper", "preserve", "lower"]))}
 
